@@ -13,7 +13,7 @@ from .models import Models
 from .source import Source
 from .spec import Schema
 
-SIDE_MODULES = ["specfns", "vecspec", "autodiff_c", "analysis_c"]
+SIDE_MODULES = ["specfns", "vecspec", "autodiff_c", "analysis_c", "compiler_c", "expressions_c"]
 
 
 class Engine:
@@ -39,6 +39,7 @@ class Engine:
         from contracts import seqtheory
         self.reg.saturate_hook = seqtheory.saturate
         self.reg.loop_index_hook = lambda ip, i: seqtheory.add_index(ip, i, loop=True)
+        self.reg.index_used_hook = seqtheory.index_used
 
     def schema_factory(self):
         if not hasattr(self, "_schema"):
